@@ -126,8 +126,9 @@ Definition fs_scandir (t : tree) (p : str) : option (list str) :=
 Record secset := mkSec {
   sec_owner : option N;
   sec_group : option N;
-  sec_nolinks : bool }.
-Definition sec_none : secset := mkSec None None false.
+  sec_nolinks : bool;
+  sec_perms : option (N * N) }.      (* econf_requirePermissions: file mode bits, directory mode bits *)
+Definition sec_none : secset := mkSec None None false None.
 
 Record globals := mkG {
   g_sec : secset;
@@ -152,6 +153,28 @@ Definition node_uid (n : node) : N := match n with NFile _ u _ | NLink _ u _ | N
 Definition node_gid (n : node) : N := match n with NFile _ _ g | NLink _ _ g | NDir _ g => g end.
 Definition is_link (n : node) : bool := match n with NLink _ _ _ => true | _ => false end.
 
+(* st_mode as lstat reports it.  The tree carries no modes of its own: the harness creates every regular file
+   0644, every directory 0755 (its umask is fixed at 022), and a symbolic link is 0777 by definition. *)
+Definition node_mode (n : node) : N :=
+  match n with
+  | NFile _ _ _ => 33188      (* 0100644 *)
+  | NLink _ _ _ => 41471      (* 0120777 *)
+  | NDir _ _ => 16877         (* 0040755 *)
+  end.
+
+(* econf_requirePermissions: the consulted file must have one of the file bits, the directory named by
+   dirname(file_name) one of the directory bits *)
+Definition perm_refusal (s : secset) (t : tree) (path : str) (n : node) : option econf_err :=
+  match sec_perms s with
+  | None => None
+  | Some (fp, dp) =>
+      if N.land (node_mode n) fp =? 0 then Some ECONF_WRONG_FILE_PERMISSION
+      else match fs_lstat t (dirname path) with
+           | None => Some ECONF_NOFILE
+           | Some d => if N.land (node_mode d) dp =? 0 then Some ECONF_WRONG_DIR_PERMISSION else None
+           end
+  end.
+
 Definition gate (t : tree) (g : globals) (cb : callback) (o : popts) (path dl cm : str) : gate_out :=
   let fail e evs := mkGO (inl e) evs (g_errfile g) (g_errline g) in
   match fs_lstat t path with
@@ -163,6 +186,9 @@ Definition gate (t : tree) (g : globals) (cb : callback) (o : popts) (path dl cm
       else if match sec_group (g_sec g) with Some u => negb (node_gid n =? u) | None => false end
       then fail ECONF_WRONG_GROUP []
       else
+      match perm_refusal (g_sec g) t path n with
+      | Some e => fail e []
+      | None =>
         let '(ok, evs) := match cb with
                           | Some f => (f path, [EvCheck path (f path)])
                           | None => (true, [])
@@ -184,6 +210,7 @@ Definition gate (t : tree) (g : globals) (cb : callback) (o : popts) (path dl cm
               | e => mkGO (inl e) evs' ap eline
               end
           end
+      end
   end.
 
 Definition with_err (g : globals) (f : str) (l : N) : globals :=
